@@ -104,7 +104,7 @@ def run_pool(tasks, jobs, on_result, should_stop=lambda: False):
 
 def run_replay(path):
     p = subprocess.run([PY, "-m", "vf.replay", path, "--json"], cwd=ROOT, capture_output=True, text=True,
-                       env=dict(os.environ, PYTHONPATH=ROOT), timeout=600)
+                       env=dict(os.environ, PYTHONPATH=(os.environ.get('VERIF_REPO', '') + os.pathsep + ROOT).lstrip(os.pathsep)), timeout=600)
     try:
         return json.loads(p.stdout.strip().splitlines()[-1])
     except Exception:
@@ -145,7 +145,8 @@ def main(argv=None):
             log(c["id"], c.get("timeout"), c.get("tags"))
         log(len(conds), "conditions")
         return 0
-    replay_dir = os.path.join(ROOT, "replay")
+    calibration = bool(os.environ.get("VERIF_REPO"))       # pointed at a scratch copy: nothing is recorded under /verif
+    replay_dir = os.path.join(ROOT, "replay") if not calibration else os.path.join(ROOT, ".work", "calib-replay-%d" % os.getpid())
     os.makedirs(replay_dir, exist_ok=True)
     os.makedirs(os.path.join(ROOT, "evidence"), exist_ok=True)
 
@@ -377,6 +378,9 @@ def main(argv=None):
         cov["traces_validated_against_impl"] += xtra.get("validated", 0)
         cov["samples"] = (xtra.get("samples", []) + cov["samples"])[:40]
         ev["violations"] = len(violations)
+    if calibration:
+        log("(calibration run against %s: no evidence written)" % os.environ["VERIF_REPO"])
+        return rc
     if not args.only and rc == 0:
         os.makedirs(os.path.join(ROOT, "costs"), exist_ok=True)
         costs.update({cid: results[cid]["wall_s"] for cid in by_id if cid in results})
